@@ -631,12 +631,52 @@ def r14f(ctx, run):
         raise LookupError("pointer-typed places evaluated: %d" % n)
 
 
+def r14g(ctx, run):
+    """no second, writable view of a pointer slot under a weaker pointee type: behind a `^mut` pointer (and inside a slice or array, whose items can be
+    assigned) the pointee type is invariant in its mutability - `^mut ^mut T` is NOT accepted where `^mut ^T` is expected, or an immutable pointer can
+    be stored through the second view and written through the first (`q : ^mut ^i32 = ^mut p; q^ = ^limit; p^ = 42;`).  can_fit_into is evaluated from
+    source (c12.World) on pointer-to-pointer pairs."""
+    import c12
+    from absint import Variant, Panic, CannotEstablish
+    V = Variant
+    w = c12.World(ctx)
+    f = w.fns["can_fit_into"]
+    i32 = V("Ty::IInt", {"0": 32})
+    P = lambda m, t: V("Ty::Pointer", {"mutable": m, "sub_ty": t})
+    S = lambda t: V("Ty::Slice", {"sub_ty": t})
+    A = lambda t: V("Ty::ConcreteArray", {"size": 2, "sub_ty": t})
+    cases = [
+        ("^mut ^mut i32 -> ^mut ^i32", P(True, P(True, i32)), P(True, P(False, i32)), False),
+        ("^mut ^i32 -> ^mut ^mut i32", P(True, P(False, i32)), P(True, P(True, i32)), False),
+        ("^mut ^mut i32 -> ^mut ^mut i32", P(True, P(True, i32)), P(True, P(True, i32)), True),
+        ("^mut ^i32 -> ^mut ^i32", P(True, P(False, i32)), P(True, P(False, i32)), True),
+        ("[]^mut i32 -> []^i32", S(P(True, i32)), S(P(False, i32)), False),
+        ("[]^i32 -> []^mut i32", S(P(False, i32)), S(P(True, i32)), False),
+        ("^mut [2]^mut i32 -> ^mut [2]^i32", P(True, A(P(True, i32))), P(True, A(P(False, i32))), False),
+        ("^mut ^mut ^mut i32 -> ^mut ^mut ^i32", P(True, P(True, P(True, i32))), P(True, P(True, P(False, i32))), False),
+        ("^i32 -> ^mut i32", P(False, i32), P(True, i32), False),
+        ("^mut i32 -> ^i32", P(True, i32), P(False, i32), True),
+    ]
+    for desc, a, b, want in cases:
+        try:
+            got = w.call("can_fit_into", a, [b], top=True)
+        except (Panic, CannotEstablish) as c:
+            run.finding("Ty::can_fit_into", "pointer-slot:" + desc, f.file, f.ln, "cannot establish can_fit_into for %s: %s" % (desc, getattr(c, "what", c)))
+            continue
+        run.check(got is want, f.site(), "%s: %s" % (desc, "accepted" if want else "rejected"), "Ty::can_fit_into", "pointer-slot:" + desc, f.file, f.ln,
+                  "%s is %s; it must be %s: %s" % (desc, "accepted" if got is True else "rejected" if got is False else got, "accepted" if want else "rejected",
+                                               "behind a writable level the pointee's mutability must match exactly - a second view with a weaker pointee type lets an immutable "
+                                               "pointer be stored where the first view expects a `^mut`, and data of a `::` binding is then written through it" if not want else
+                                               "the pair is the same type (or only drops a write permission at the outermost level)"))
+
+
 def rules(ctx):
     return [
         Rule("R14.a", "assignment and `^mut` reference consult get_mutability with the right arguments and reject on any diagnostic", 7, r14a),
         Rule("R14.b", "immutable roots: `::` local, parameter, global, file member (decision table of get_mutability)", 40, r14b),
         Rule("R14.e", "field paths through pointer fields: get_mutability evaluated with its own recursion (a middle pointer field decides by its own type)", 10, r14e),
         Rule("R14.f", "the type has the last word: a place reached through an expression of type `^T` is never writable, whatever the expression is made of", 10, r14f),
+        Rule("R14.g", "pointee mutability is invariant behind a writable level: `^mut ^mut T` is not a `^mut ^T` (can_fit_into evaluated on pointer-to-pointer pairs)", 10, r14g),
         Rule("R14.d", "`^mut (x)` points at `x`: forms get_mutability looks through are looked through by the code generator's Ref arm", 3, r14d),
         Rule("R14.c", "Mutable through a dereference only behind a `^mut` pointer type; deref/index/paren recursion flags", 20, r14c),
     ]
